@@ -5,7 +5,7 @@ from __future__ import annotations
 import ast
 import typing as t
 
-from .loader import FuncInfo, const_str, dotted, walk_no_nested  # noqa: F401
+from .loader import FuncInfo, const_str, dotted, is_self_attr, walk_no_nested  # noqa: F401
 
 
 def calls(node: ast.AST, nested: bool = True) -> list[ast.Call]:
